@@ -647,3 +647,55 @@ Fixpoint trace_ok_from (prev : mh) (acc : option mh) (al : list nat) (ops : list
   end.
 Definition prop_install_b (ops : list iop) (obs : list (mh * recv)) : bool :=
   trace_ok_from Default None [0%nat] ops obs.
+
+(* ------------------------------------------------------------------ several PrettyFormatter objects in one process *)
+(* A process may hold several PrettyFormatter objects (two sub-pipelines each with formatPretty(), a
+   second Logger, a re-configuration).  The thread-index table and the category width are members of
+   the OBJECT: what one object returns is a function of the messages IT has formatted, whatever the
+   other objects saw and whichever threads passed through them first. *)
+Definition pcfg := (bool * nat)%type.                            (* colorize, maxCategoryWidth *)
+(* the records one object returns for the messages it formats, in order *)
+Fixpoint pretty_seq (c : bool) (w : nat) (st : pstate) (ms : list msg) : list qstr :=
+  match ms with
+  | [] => []
+  | m :: r => let (st', s) := pretty c w st m in s :: pretty_seq c w st' r
+  end.
+Fixpoint upd {A : Type} (k : nat) (x : A) (l : list A) : list A :=
+  match l, k with
+  | [], _ => []
+  | _ :: t, O => x :: t
+  | h :: t, S k' => h :: upd k' x t
+  end.
+(* one delivery: message (snd op) is formatted by object number (fst op) *)
+Definition multi_step (cfgs : list pcfg) (sts : list pstate) (op : nat * msg)
+  : list pstate * list (nat * qstr) :=
+  match nth_error cfgs (fst op), nth_error sts (fst op) with
+  | Some (c, w), Some st => let (st', s) := pretty c w st (snd op) in (upd (fst op) st' sts, [(fst op, s)])
+  | _, _ => (sts, [])
+  end.
+Fixpoint multi_run (cfgs : list pcfg) (sts : list pstate) (ops : list (nat * msg)) : list (nat * qstr) :=
+  match ops with
+  | [] => []
+  | op :: r => let (sts', out) := multi_step cfgs sts op in out ++ multi_run cfgs sts' r
+  end.
+Definition multi (cfgs : list pcfg) (ops : list (nat * msg)) : list (nat * qstr) :=
+  multi_run cfgs (map (fun _ => p0) cfgs) ops.
+Definition out_of (k : nat) (outs : list (nat * qstr)) : list qstr :=
+  map snd (filter (fun o => Nat.eqb (fst o) k) outs).
+Definition seen_by (k : nat) (ops : list (nat * msg)) : list msg :=
+  map snd (filter (fun o => Nat.eqb (fst o) k) ops).
+Fixpoint lseqb (a b : list qstr) : bool :=
+  match a, b with [], [] => true | x :: a', y :: b' => seqb x y && lseqb a' b' | _, _ => false end.
+(* oracle on the OBSERVED records (object number, text): every record belongs to an existing object
+   and the records of each object are what a fresh formatter with that object's parameters returns for
+   the messages delivered to that object *)
+Definition prop_multi_b (cfgs : list pcfg) (ops : list (nat * msg)) (outs : list (nat * qstr)) : bool :=
+  forallb (fun o => Nat.ltb (fst o) (List.length cfgs)) outs
+  && forallb (fun k => match nth_error cfgs k with
+                       | Some (c, w) => lseqb (out_of k outs) (pretty_seq c w p0 (seen_by k ops))
+                       | None => false
+                       end) (seq 0 (List.length cfgs)).
+(* the thread label inside a record is not visible to the other oracles' vocabulary; for the report:
+   the index an object has given to a thread after a sequence of messages *)
+Fixpoint pretty_state (c : bool) (w : nat) (st : pstate) (ms : list msg) : pstate :=
+  match ms with [] => st | m :: r => pretty_state c w (fst (pretty c w st m)) r end.
